@@ -87,7 +87,11 @@ fn probe(
     call: &dyn Fn(ArrayViewMutD<f64>) -> CallRes,
     case: &dyn Fn(Vec<(&str, Json)>) -> Json,
 ) {
-    for (vname, shape) in variants(expected, nq) {
+    let vs = variants(expected, nq);
+    // every variant is tried twice in a row on the same interpolator: the answer to a wrongly shaped
+    // buffer must not depend on the call having been made (and rejected) before
+    let vs: Vec<(String, Vec<usize>)> = vs.iter().flat_map(|(n, s)| [(n.clone(), s.clone()), (if n == "correct" { n.clone() } else { format!("{n}(repeated)") }, s.clone())]).collect();
+    for (vname, shape) in vs {
         let big_shape: Vec<usize> = shape.iter().map(|s| s + 2).collect();
         let mut big = ArrayD::from_elem(IxDyn(&big_shape), POISON);
         let res = {
@@ -487,6 +491,110 @@ fn run_2d(job: &Job, out: &mut JobOut) {
     }
 }
 
+// A user strategy that writes its target without looking at the data (so nothing inside the
+// strategy would notice a target of the wrong shape): the batch entry points have to reject a wrongly
+// shaped buffer themselves.
+#[derive(Debug)]
+struct Fill;
+impl<Sd, Sx, D> ndarray_interp::interp1d::Interp1DStrategyBuilder<Sd, Sx, D> for Fill
+where
+    Sd: ndarray::Data<Elem = f64>,
+    Sx: ndarray::Data<Elem = f64>,
+    D: Dimension + ndarray::RemoveAxis,
+{
+    const MINIMUM_DATA_LENGHT: usize = 2;
+    type FinishedStrat = Fill;
+    fn build<Sx2>(self, _x: &ndarray::ArrayBase<Sx2, Ix1>, _data: &ndarray::ArrayBase<Sd, D>) -> Result<Fill, ndarray_interp::BuilderError>
+    where
+        Sx2: ndarray::Data<Elem = f64>,
+    {
+        Ok(Fill)
+    }
+}
+impl<Sd, Sx, D> ndarray_interp::interp1d::Interp1DStrategy<Sd, Sx, D> for Fill
+where
+    Sd: ndarray::Data<Elem = f64>,
+    Sx: ndarray::Data<Elem = f64>,
+    D: Dimension + ndarray::RemoveAxis,
+{
+    fn interp_into(&self, _ip: &ndarray_interp::interp1d::Interp1D<Sd, Sx, D, Self>, mut target: ndarray::ArrayViewMut<f64, D::Smaller>, x: f64) -> Result<(), InterpolateError> {
+        target.fill(x);
+        Ok(())
+    }
+}
+impl<Sd, Sx, Sy, D> ndarray_interp::interp2d::Interp2DStrategyBuilder<Sd, Sx, Sy, D> for Fill
+where
+    Sd: ndarray::Data<Elem = f64>,
+    Sx: ndarray::Data<Elem = f64>,
+    Sy: ndarray::Data<Elem = f64>,
+    D: Dimension + ndarray::RemoveAxis,
+    D::Smaller: ndarray::RemoveAxis,
+{
+    const MINIMUM_DATA_LENGHT: usize = 2;
+    type FinishedStrat = Fill;
+    fn build(self, _x: &ndarray::ArrayBase<Sx, Ix1>, _y: &ndarray::ArrayBase<Sy, Ix1>, _data: &ndarray::ArrayBase<Sd, D>) -> Result<Fill, ndarray_interp::BuilderError> {
+        Ok(Fill)
+    }
+}
+impl<Sd, Sx, Sy, D> ndarray_interp::interp2d::Interp2DStrategy<Sd, Sx, Sy, D> for Fill
+where
+    Sd: ndarray::Data<Elem = f64>,
+    Sx: ndarray::Data<Elem = f64>,
+    Sy: ndarray::Data<Elem = f64>,
+    D: Dimension + ndarray::RemoveAxis,
+    D::Smaller: ndarray::RemoveAxis,
+{
+    fn interp_into(&self, _ip: &ndarray_interp::interp2d::Interp2D<Sd, Sx, Sy, D, Self>, mut target: ndarray::ArrayViewMut<'_, f64, <D::Smaller as Dimension>::Smaller>, x: f64, y: f64) -> Result<(), InterpolateError> {
+        target.fill(x + y);
+        Ok(())
+    }
+}
+
+/// batch entry points with the user strategy `Fill`
+fn run_user_strategy(two_d: bool, data_shape: &[usize], query_shape: &[usize], out: &mut JobOut) {
+    let data = data_nd(data_shape);
+    let nq = query_shape.len();
+    let key = format!("{}:user-strategy:data{data_shape:?}:query{query_shape:?}", if two_d { "Interp2D" } else { "Interp1D" }).replace(' ', "");
+    let mut expected = query_shape.to_vec();
+    expected.extend_from_slice(&data_shape[if two_d { 2 } else { 1 }..]);
+    let case = |extra: Vec<(&str, Json)>| {
+        let mut v = vec![("call", Json::str("interp_array_into with a user-defined strategy")), ("data_shape", Json::usizes(data_shape)), ("query_shape", Json::usizes(query_shape))];
+        v.extend(extra);
+        Json::obj(v)
+    };
+    if two_d {
+        let xs = query_nd(query_shape, (data_shape[0] - 1) as f64);
+        let ys = query_nd(query_shape, (data_shape[1] - 1) as f64);
+        let ip = nimc::valid_build!(out, Interp2DBuilder::new(data.clone()).strategy(Fill).build(), return);
+        macro_rules! go {
+            ($dq:ty) => {
+                if let (Ok(qx), Ok(qy)) = (xs.clone().into_dimensionality::<$dq>(), ys.clone().into_dimensionality::<$dq>()) {
+                    let reference = ip.interp_array(&qx, &qy).expect("in range").into_dyn();
+                    probe(out, &format!("{key}:{}", stringify!($dq)), &expected, nq, Some(&reference), &|win: ArrayViewMutD<f64>| -> CallRes { Some(catch(|| ip.interp_array_into(&qx, &qy, win))) }, &case);
+                }
+            };
+        }
+        go!(Ix1);
+        go!(Ix2);
+        go!(IxDyn);
+    } else {
+        let xs = query_nd(query_shape, (data_shape[0] - 1) as f64);
+        let ip = nimc::valid_build!(out, Interp1DBuilder::new(data.clone()).strategy(Fill).build(), return);
+        macro_rules! go {
+            ($dq:ty) => {
+                if let Ok(q) = xs.clone().into_dimensionality::<$dq>() {
+                    let reference = ip.interp_array(&q).expect("in range").into_dyn();
+                    probe(out, &format!("{key}:{}", stringify!($dq)), &expected, nq, Some(&reference), &|win: ArrayViewMutD<f64>| -> CallRes { Some(catch(|| ip.interp_array_into(&q, win))) }, &case);
+                }
+            };
+        }
+        go!(Ix1);
+        go!(Ix2);
+        go!(IxDyn);
+    }
+    out.states += 1;
+}
+
 fn body(ctx: &Ctx) -> (Summary, Meta) {
     let quick = ctx.quick();
     let mut jobs = vec![];
@@ -525,8 +633,23 @@ fn body(ctx: &Ctx) -> (Summary, Meta) {
         }
         out
     });
+    let mut user_jobs: Vec<(bool, Vec<usize>, Vec<usize>)> = vec![];
+    for qs in [vec![3], vec![1], vec![2, 3], vec![0], vec![2, 0]] {
+        for ds in [vec![4], vec![4, 3], vec![4, 3, 2], vec![4, 1]] {
+            user_jobs.push((false, ds, qs.clone()));
+        }
+        for ds in [vec![3, 4], vec![3, 4, 3], vec![3, 4, 3, 2], vec![3, 4, 1]] {
+            user_jobs.push((true, ds, qs.clone()));
+        }
+    }
+    let mut sum = sum;
+    sum.merge(run_jobs(ctx, "user-strategy", &user_jobs, |j| format!("{}:user-strategy:data{:?}:query{:?}", if j.0 { "Interp2D" } else { "Interp1D" }, j.1, j.2).replace(' ', ""), |j| {
+        let mut out = JobOut::default();
+        run_user_strategy(j.0, &j.1, &j.2, &mut out);
+        out
+    }));
     let meta = Meta {
-        rule: "every *_into entry point of Interp1D (Linear, CubicSpline) and Interp2D (Bilinear) x data shapes of rank 1..4 x query shapes of rank 0..3 x every static (data dim, query dim) instantiation matching those ranks plus the dynamic ones x buffer shape variants {correct, each axis -1/+1, every swap of two unequal axes (query axes, trailing axes, across), rank+1, two axes merged (same element count), refactored element count}, each buffer being a window into a larger array filled with poison; 2-D: xs/ys of different shapes (each axis +-1, permuted, flattened). Oracle: correct shape => Ok, bitwise equal to the allocating variant, no poison left inside; any other shape => never Ok; poison outside the window intact in every case. Also with the query being exactly the knot vector of the axis (both axes in 2-D). Non-trivial = a wrongly shaped buffer or mismatched xs/ys.".into(),
+        rule: "every *_into entry point of Interp1D (Linear, CubicSpline) and Interp2D (Bilinear) x data shapes of rank 1..4 x query shapes of rank 0..3 x every static (data dim, query dim) instantiation matching those ranks plus the dynamic ones x buffer shape variants {correct, each axis -1/+1, every swap of two unequal axes (query axes, trailing axes, across), rank+1, two axes merged (same element count), refactored element count}, each buffer being a window into a larger array filled with poison; 2-D: xs/ys of different shapes (each axis +-1, permuted, flattened). Oracle: correct shape => Ok, bitwise equal to the allocating variant, no poison left inside; any other shape => never Ok; poison outside the window intact in every case. Every wrong shape is offered twice in a row to the same interpolator. The batch entry points are also driven with a user-defined strategy that writes its target without looking at the data (the entry point itself has to reject the buffer). Also with the query being exactly the knot vector of the axis (both axes in 2-D). Non-trivial = a wrongly shaped buffer or mismatched xs/ys.".into(),
         bounds: format!("{njobs} (interpolator, data shape, query shape) jobs; tier {}", ctx.tier.name()),
         assumptions: vec!["a panic (caught) is the documented rejection; a returned Err would also count as 'not Ok'".into()],
         extra: vec![],
